@@ -3690,8 +3690,11 @@ def solve(m: types.Model, d: types.Data):
 def _solve(m: types.Model, d: types.Data, ctx: SolverContext, compact: bool = False):
   """Finds forces that satisfy constraints."""
   warmstart = not (m.opt.disableflags & types.DisableBit.WARMSTART)
+  # The sparse qfrc_constraint rebuild skips worlds with nefc == 0, so they are zeroed
+  # here. A compact solve over a sparse model runs with m.is_sparse == False but still
+  # takes the sparse rebuild (see _sparse_compact), so it needs the same zeroing.
   wp.launch(
-    _solve_init_dof(warmstart, m.is_sparse),
+    _solve_init_dof(warmstart, m.is_sparse or _sparse_compact(ctx)),
     dim=(d.nworld, m.nv),
     inputs=[d.nefc, d.qacc_warmstart, d.qacc_smooth],
     outputs=[d.qacc, d.qfrc_constraint],
